@@ -276,8 +276,12 @@ inline GpCase gpCase(int maxTop = 61) {
       // (double rounding stays far below the features); sometimes use the full range
       if (G::chance(75) && shift + rbits + 8 < 62) room = std::min(room, int64_t(1) << (shift + rbits + 8));
       int64_t tx = room > 0 ? G::sym(room) : 0, ty = room > 0 ? G::sym(room) : 0;
-      applyMag(g.subj, shift, tx, ty, true);
-      applyMag(g.clip, shift, tx, ty, true);
+      // a third of the scaled cases keep the pure power-of-two lattice (fixed-point style coordinates: all coordinate
+      // differences are multiples of 2^shift, so products of differences wrap to 0 in 64 bits where code is not exact)
+      bool jitter = G::chance(65);
+      applyMag(g.subj, shift, tx, ty, jitter);
+      applyMag(g.clip, shift, tx, ty, jitter);
+      if (!jitter) g.shape += "_pow2lattice";
     }
   }
   return g;
